@@ -38,3 +38,5 @@ func FuzzCLIAddress(f *testing.F) { fuzzCLIAddress(f) }
 func TestC18(t *testing.T)      { RunC18(t) }
 func TestC18Proc(t *testing.T)  { RunC18Proc(t) }
 func TestC18Child(t *testing.T) { RunC18Child(t) }
+func TestC03Enum(t *testing.T) { RunC03Enum(t) }
+func TestC08Enum(t *testing.T) { RunC08Enum(t) }
